@@ -168,14 +168,6 @@ mod k {
         }
         (unsafe { String::from_utf8_unchecked(b.to_vec()) }, b)
     }
-    // concrete ASCII text `head` followed by N symbolic ASCII octets
-    fn with_tail<const N: usize>(head: &str) -> (String, [u8; N]) {
-        let (_, b) = ascii::<N>();
-        let mut v = Vec::with_capacity(head.len() + N);
-        v.extend_from_slice(head.as_bytes());
-        v.extend_from_slice(&b);
-        (unsafe { String::from_utf8_unchecked(v) }, b)
-    }
     fn is_invalid_config<T>(r: &Result<T, Error>) -> bool {
         matches!(r, Err(Error::InvalidConfig(_)))
     }
@@ -304,10 +296,9 @@ mod k {
             _ => assert!(is_invalid_config(&r), "parse_duration refuses other types (and the string \"x\")"),
         }
         std::mem::forget(r);
-        // string-typed address parsers: the String kind is "x", which none of them accepts
-        let r = parse_string_hwaddr("k", &y);
-        assert!(if is_null { matches!(r, Ok(None)) } else { is_invalid_config(&r) }, "parse_string_hwaddr");
-        std::mem::forget(r);
+        // string-typed address parsers.  For the String kind ("x") only the ones that do not go through
+        // str::split / str::contains are run: the CharSearcher loop nest does not finish under CBMC even on a
+        // concrete one-character string (measured), see the report.
         let r = parse_string_ip("k", &y);
         assert!(if is_null { matches!(r, Ok(None)) } else { is_invalid_config(&r) }, "parse_string_ip");
         std::mem::forget(r);
@@ -317,22 +308,27 @@ mod k {
         let r = parse_string_ip6("k", &y);
         assert!(if is_null { matches!(r, Ok(None)) } else { is_invalid_config(&r) }, "parse_string_ip6");
         std::mem::forget(r);
-        let r = parse_string_prefix("k", &y);
-        assert!(if is_null { matches!(r, Ok(None)) } else { is_invalid_config(&r) }, "parse_string_prefix");
-        std::mem::forget(r);
-        let r = parse_string_prefix4("k", &y);
-        assert!(if is_null { matches!(r, Ok(None)) } else { is_invalid_config(&r) }, "parse_string_prefix4");
-        std::mem::forget(r);
-        let r = parse_string_prefix6("k", &y);
-        assert!(if is_null { matches!(r, Ok(None)) } else { is_invalid_config(&r) }, "parse_string_prefix6");
-        std::mem::forget(r);
-        let r = parse_string_sockaddr("k", &y);
-        assert!(if is_null { matches!(r, Ok(None)) } else { is_invalid_config(&r) }, "parse_string_sockaddr");
-        std::mem::forget(r);
+        if k != KIND_STR {
+            let r = parse_string_hwaddr("k", &y);
+            assert!(if is_null { matches!(r, Ok(None)) } else { is_invalid_config(&r) }, "parse_string_hwaddr");
+            std::mem::forget(r);
+            let r = parse_string_prefix("k", &y);
+            assert!(if is_null { matches!(r, Ok(None)) } else { is_invalid_config(&r) }, "parse_string_prefix");
+            std::mem::forget(r);
+            let r = parse_string_prefix4("k", &y);
+            assert!(if is_null { matches!(r, Ok(None)) } else { is_invalid_config(&r) }, "parse_string_prefix4");
+            std::mem::forget(r);
+            let r = parse_string_prefix6("k", &y);
+            assert!(if is_null { matches!(r, Ok(None)) } else { is_invalid_config(&r) }, "parse_string_prefix6");
+            std::mem::forget(r);
+            let r = parse_string_sockaddr("k", &y);
+            assert!(if is_null { matches!(r, Ok(None)) } else { is_invalid_config(&r) }, "parse_string_sockaddr");
+            std::mem::forget(r);
+        }
         std::mem::forget(y);
     }
 
-    /// VERIF: {"p":"C19","tier":"quick","fns":["config::parse_i64","config::parse_num::<u8>","config::parse_num::<u32>","config::parse_string","config::parse_boolean","config::parse_duration","config::parse_string_hwaddr","config::parse_string_ip","config::parse_string_ip4","config::parse_string_ip6","config::parse_string_prefix","config::parse_string_prefix4","config::parse_string_prefix6","config::parse_string_sockaddr","config::type_to_name"],"bounds":"each parser on one value of every scalar Yaml variant, one after the other: Real, Integer(any i64), String \"x\", Boolean(any), Alias(any), Null, BadValue","oracle":"right type => Ok(Some(value)); Null => Ok(None); every wrong type (and out-of-range integer) => Err(InvalidConfig); never a panic","stubs":["alloc::fmt::format -> empty string (message text only)"],"covers":1,"unwind":8}
+    /// VERIF: {"p":"C19","tier":"quick","fns":["config::parse_i64","config::parse_num::<u8>","config::parse_num::<u32>","config::parse_string","config::parse_boolean","config::parse_duration","config::parse_string_hwaddr","config::parse_string_ip","config::parse_string_ip4","config::parse_string_ip6","config::parse_string_prefix","config::parse_string_prefix4","config::parse_string_prefix6","config::parse_string_sockaddr","config::type_to_name"],"bounds":"each parser on one value of every scalar Yaml variant, one after the other: Real, Integer(any i64), String \"x\" (on which the hwaddr/prefix/sockaddr parsers are NOT run), Boolean(any), Alias(any), Null, BadValue","oracle":"right type => Ok(Some(value)); Null => Ok(None); every wrong type (and out-of-range integer) => Err(InvalidConfig); never a panic","stubs":["alloc::fmt::format -> empty string (message text only)"],"covers":1,"unwind":8}
     #[kani::proof]
     #[kani::unwind(8)]
     #[kani::stub(alloc::fmt::format, empty_format)]
@@ -545,7 +541,7 @@ mod k {
         want
     }
 
-    /// VERIF: {"p":"C19","tier":"quick","fns":["config::str_duration"],"bounds":"every ASCII string of length 0,1,2,3,4 in which each unit letter (s m h d w) that precedes the first foreign character has a digit between it and the previous unit letter","oracle":"value == sum of number x unit (+ trailing bare number as seconds), blanks and '_' ignored; a foreign character => Err(InvalidConfig); never a panic","stubs":["alloc::fmt::format -> empty string (message text only)"],"covers":3,"unwind":7}
+    /// VERIF: {"p":"C19","tier":"quick","fns":["config::str_duration"],"bounds":"every ASCII string of length 0,1,2,3 in which each unit letter (s m h d w) that precedes the first foreign character has a digit between it and the previous unit letter","oracle":"value == sum of number x unit (+ trailing bare number as seconds), blanks and '_' ignored; a foreign character => Err(InvalidConfig); never a panic","stubs":["alloc::fmt::format -> empty string (message text only)"],"covers":3,"unwind":7}
     #[kani::proof]
     #[kani::unwind(7)]
     #[kani::stub(alloc::fmt::format, empty_format)]
@@ -553,11 +549,20 @@ mod k {
         let _ = duration_value::<0>();
         let _ = duration_value::<1>();
         let w2 = duration_value::<2>();
-        let _ = duration_value::<3>();
+        let w3 = duration_value::<3>();
+        kani::cover!(w3 == Some(5400), "90m");
+        kani::cover!(w3 == Some(604800 + 2), "1w2");
+        kani::cover!(w2.is_none(), "refused");
+    }
+
+    /// VERIF: {"p":"C19","tier":"quick","fns":["config::str_duration"],"bounds":"every ASCII string of length 4 in which each unit letter that precedes the first foreign character has a digit between it and the previous unit letter","oracle":"as c19_str_duration_value_wellformed_short","stubs":["alloc::fmt::format -> empty string (message text only)"],"covers":2,"unwind":7}
+    #[kani::proof]
+    #[kani::unwind(7)]
+    #[kani::stub(alloc::fmt::format, empty_format)]
+    fn c19_str_duration_value_wellformed_len4() {
         let w4 = duration_value::<4>();
         kani::cover!(w4 == Some(3660), "1h1m / 61m ...");
         kani::cover!(w4 == Some(3 * 604800 + 2), "3w 2 / 3w2s");
-        kani::cover!(w2.is_none(), "refused");
     }
 
     /// VERIF: {"p":"C19","tier":"thorough","fns":["config::str_duration"],"bounds":"every ASCII string of length 5 and 6 in which each unit letter that precedes the first foreign character has a digit between it and the previous unit letter","oracle":"as c19_str_duration_value_wellformed_short","stubs":["alloc::fmt::format -> empty string (message text only)"],"covers":2,"unwind":9}
@@ -611,30 +616,37 @@ mod k {
         run_duration(v);
     }
 
-    /// VERIF: {"p":"C19","tier":"quick","fns":["config::str_duration"],"bounds":"15-digit numbers (always below 2^64): 3 symbolic digits + the 12 concrete digits 000000000000 + one symbolic unit letter, e.g. `valid: 999000000000000w`","oracle":"Ok or Err(InvalidConfig): never a panic / silent wrap-around in number x unit","stubs":["alloc::fmt::format -> empty string (message text only)"],"covers":1,"unwind":19}
+    /// VERIF: {"p":"C19","tier":"quick","fns":["config::str_duration"],"bounds":"numbers around 2^64/86400 and 2^64/604800 (both far below 2^64): `2135039823346DDu` and `305005689049DDu` with DD two symbolic digits and u a symbolic unit letter, e.g. `valid: 30500568904999w`","oracle":"Ok or Err(InvalidConfig): never a panic / silent wrap-around in number x unit","stubs":["alloc::fmt::format -> empty string (message text only)"],"covers":1,"unwind":19}
     #[kani::proof]
     #[kani::unwind(19)]
     #[kani::stub(alloc::fmt::format, empty_format)]
     fn c19_str_duration_unit_scaling() {
         let mut v = Vec::with_capacity(16);
-        push_digits::<3>(&mut v, 9);
-        push_text(&mut v, "000000000000");
+        push_text(&mut v, "2135039823346");
+        push_digits::<2>(&mut v, 9);
         v.push(any_unit());
-        kani::cover!(v[15] == b'h' && v[1] == b'7', "hours never overflow with 15 digits");
+        kani::cover!(v[15] == b'd' && v[13] == b'0' && v[14] == b'1', "213503982334601d = 2^64 - 25216 s fits");
+        run_duration(v);
+        let mut v = Vec::with_capacity(15);
+        push_text(&mut v, "305005689049");
+        push_digits::<2>(&mut v, 9);
+        v.push(any_unit());
         run_duration(v);
     }
 
-    /// VERIF: {"p":"C19","tier":"quick","fns":["config::str_duration"],"bounds":"two terms `AB000000000000wCD000000000000w` with symbolic digits A,C in 0..=2 and B,D in 0..=9 (each term alone is below 2^64 seconds: 29e12 weeks = 1.75e19 s)","oracle":"Ok or Err(InvalidConfig): a sum that does not fit is refused, not a panic (Duration += panics with 'overflow when adding durations' in every build profile)","stubs":["alloc::fmt::format -> empty string (message text only)"],"covers":1,"unwind":33}
+    /// VERIF: {"p":"C19","tier":"quick","fns":["config::str_duration"],"bounds":"two terms `1500000000000Dw155005689049DDw` with D symbolic digits: each term alone is about 9e18 s (< 2^64), the sum of the two ranges over 30500568904900..=30500568905008 weeks, i.e. across 2^64 s = 30500568904943.04 weeks","oracle":"Ok or Err(InvalidConfig): a sum that does not fit is refused, not a panic (Duration += panics with 'overflow when adding durations' in every build profile)","stubs":["alloc::fmt::format -> empty string (message text only)"],"covers":1,"unwind":33}
     #[kani::proof]
     #[kani::unwind(33)]
     #[kani::stub(alloc::fmt::format, empty_format)]
     fn c19_str_duration_sum_of_terms() {
         let mut v = Vec::with_capacity(30);
-        push_digits::<2>(&mut v, 2);
-        push_text(&mut v, "000000000000w");
-        push_digits::<2>(&mut v, 2);
-        push_text(&mut v, "000000000000w");
-        kani::cover!(v[0] == b'0' && v[15] == b'0' && v[1] == b'7', "sum fits");
+        push_text(&mut v, "1500000000000");
+        push_digits::<1>(&mut v, 9);
+        v.push(b'w');
+        push_text(&mut v, "155005689049");
+        push_digits::<2>(&mut v, 9);
+        v.push(b'w');
+        kani::cover!(v[13] == b'0' && v[27] == b'4' && v[28] == b'3', "15000000000000w15500568904943w = 2^64 - 25216 s fits");
         run_duration(v);
     }
 
@@ -670,164 +682,31 @@ mod k {
         want.is_some()
     }
 
-    /// VERIF: {"p":"C19","tier":"quick","fns":["config::hexbyte","config::hexdigit"],"bounds":"every ASCII string of length 0,1,2,3","oracle":"Ok(16*h+l) exactly for two hex digits (either case), Err otherwise; never a panic","covers":2,"unwind":6}
+    /// VERIF: {"p":"C19","tier":"quick","fns":["config::hexbyte","config::hexdigit"],"bounds":"every ASCII string of length 0,1,2,3 (one instance per length, run one after the other)","oracle":"Ok(16*h+l) exactly for two hex digits (either case), Err otherwise; never a panic","covers":2,"unwind":6}
     #[kani::proof]
     #[kani::unwind(6)]
     fn c19_hexbyte_total() {
-        let n: u8 = kani::any();
-        let ok = match n {
-            0 => hexbyte_on::<0>(),
-            1 => hexbyte_on::<1>(),
-            2 => hexbyte_on::<2>(),
-            _ => hexbyte_on::<3>(),
-        };
-        kani::cover!(ok, "two hex digits");
-        kani::cover!(!ok && n == 2, "two characters refused");
+        let ok0 = hexbyte_on::<0>();
+        let ok1 = hexbyte_on::<1>();
+        let ok2 = hexbyte_on::<2>();
+        let ok3 = hexbyte_on::<3>();
+        assert!(!ok0 && !ok1 && !ok3, "reference sanity");
+        kani::cover!(ok2, "two hex digits");
+        kani::cover!(!ok2, "two characters refused");
     }
 
-    fn hexerror_fmt_silent(_e: &HexError, _f: &mut std::fmt::Formatter<'_>) -> std::fmt::Result {
-        Ok(())
-    }
-    // -> accepted?
-    fn hwaddr_on<const N: usize>() -> bool {
-        let (s, b) = ascii::<N>();
-        let bs: &[u8] = &b;
-        let r = str_hwaddr(Some(s));
-        // reference: octets of two hex digits joined by single colons
-        let mut ok = N % 3 == 2;
-        let mut i = 0;
-        while i < N {
-            ok = ok && if i % 3 == 2 { bs[i] == b':' } else { hexval(bs[i]).is_some() };
-            i += 1;
-        }
-        if ok {
-            let first = hexval(bs[0]).unwrap() * 16 + hexval(bs[1]).unwrap();
-            assert!(matches!(&r, Ok(Some(v)) if v.len() == (N + 1) / 3 && v[0] == first), "str_hwaddr returns one octet per hex pair");
-        } else {
-            assert!(is_invalid_config(&r), "str_hwaddr refuses malformed addresses with InvalidConfig");
-        }
-        std::mem::forget(r);
-        ok
-    }
+    // ---- prefixes -----------------------------------------------------------------------------------------
+    // NOT REACHABLE (measured): str_hwaddr, str_prefix, str_prefix4, str_prefix6, str_sockaddr (and dhcp's
+    // parse_subnet / parse_routes).  They all start with str::split / str::contains on a char; CBMC cannot fold
+    // the CharSearcher state, so the nest `Vec::extend` x `CharSearcher::next_match` x `memchr` x `memcmp` is
+    // unrolled to the unwinding bound on every level: `String::from("10.0.0.0/").split('/').collect()` alone (fully
+    // concrete, unwind 11/16) and str_hwaddr on "xx:xx" (unwind 7) exceed 240 s / 5 GB, with or without a naive
+    // stub for core::slice::memchr::memchr.  What these parsers let through was therefore established by running
+    // the real loader natively on YAML text (see the report); the harness below and c19_prefix_ops_total_any_len
+    // cover what happens AFTER such a value has been accepted, on a struct built exactly the way str_prefix*
+    // build it (field-wise, without Prefix6::new).
 
-    /// VERIF: {"p":"C19","tier":"quick","fns":["config::str_hwaddr","config::hexbyte","config::hexdigit"],"bounds":"every ASCII string of length 0,1,2,3,5,6 (all 128 values per octet, so colons anywhere)","oracle":"Ok(octets) exactly for hex pairs joined by single colons, Err(InvalidConfig) otherwise (empty string, empty segment, bad digit, wrong segment length); never a panic","stubs":["<HexError as Display>::fmt -> writes nothing (message text only)"],"covers":2,"unwind":9}
-    #[kani::proof]
-    #[kani::unwind(9)]
-    #[kani::stub(<HexError as std::fmt::Display>::fmt, hexerror_fmt_silent)]
-    fn c19_str_hwaddr_total() {
-        let n: u8 = kani::any();
-        let ok = match n {
-            0 => hwaddr_on::<0>(),
-            1 => hwaddr_on::<1>(),
-            2 => hwaddr_on::<2>(),
-            3 => hwaddr_on::<3>(),
-            4 => hwaddr_on::<5>(),
-            _ => hwaddr_on::<6>(),
-        };
-        kani::cover!(ok && n == 4, "two octets");
-        kani::cover!(!ok && n == 4, "five characters refused");
-    }
-
-    // ---- prefixes: which prefix lengths does the loader let through? -------------------------------------
-    // -> accepted prefix length
-    fn prefix4_on<const N: usize>() -> Option<u8> {
-        let (s, _b) = with_tail::<N>("10.0.0.0/");
-        let r = str_prefix4(Some(s));
-        assert!(matches!(r, Ok(Some(_)) | Err(Error::InvalidConfig(_))), "str_prefix4: a prefix or InvalidConfig");
-        let mut acc = None;
-        if let Ok(Some(p)) = &r {
-            assert!(p.addr == Ipv4Addr::new(10, 0, 0, 0), "address part");
-            assert!(p.prefixlen <= 32, "an accepted IPv4 prefix has a length of at most 32 (Prefix4::new's own invariant)");
-            acc = Some(p.prefixlen);
-        }
-        std::mem::forget(r);
-        acc
-    }
-
-    /// VERIF: {"p":"C19","tier":"quick","fns":["config::str_prefix4","config::str_ip4","config::str_ip"],"bounds":"strings \"10.0.0.0/\" + every ASCII string of length 0,1,2,3 (so /0../999, /-1, /+8, / 8, //, ...)","oracle":"Ok(prefix) or Err(InvalidConfig), never a panic; an accepted prefix satisfies the invariant that Prefix4::new asserts (prefixlen <= 32) and that dhcp::build_default_config relies on (`32 - prefixlen`)","stubs":["alloc::fmt::format -> empty string (message text only)"],"covers":2,"unwind":16}
-    #[kani::proof]
-    #[kani::unwind(16)]
-    #[kani::stub(alloc::fmt::format, empty_format)]
-    fn c19_str_prefix4_accepted_lengths() {
-        let n: u8 = kani::any();
-        let acc = match n {
-            0 => prefix4_on::<0>(),
-            1 => prefix4_on::<1>(),
-            2 => prefix4_on::<2>(),
-            _ => prefix4_on::<3>(),
-        };
-        kani::cover!(n == 2 && acc == Some(24), "10.0.0.0/24 accepted");
-        kani::cover!(n == 0 && acc.is_none(), "10.0.0.0/ refused");
-    }
-
-    fn prefix6_on<const N: usize>() -> Option<u8> {
-        let (s, _b) = with_tail::<N>("fd00::/");
-        let r = str_prefix6(Some(s));
-        assert!(matches!(r, Ok(Some(_)) | Err(Error::InvalidConfig(_))), "str_prefix6: a prefix or InvalidConfig");
-        let mut acc = None;
-        if let Ok(Some(p)) = &r {
-            assert!(p.addr == Ipv6Addr::new(0xfd00, 0, 0, 0, 0, 0, 0, 0), "address part");
-            assert!(p.prefixlen <= 128, "an accepted IPv6 prefix has a length of at most 128 (Prefix6::new's own invariant)");
-            acc = Some(p.prefixlen);
-        }
-        std::mem::forget(r);
-        acc
-    }
-
-    /// VERIF: {"p":"C19","tier":"quick","fns":["config::str_prefix6","config::str_ip6","config::str_ip"],"bounds":"strings \"fd00::/\" + every ASCII string of length 0,1,2,3","oracle":"Ok(prefix) or Err(InvalidConfig), never a panic; an accepted prefix satisfies the invariant that Prefix6::new asserts (prefixlen <= 128)","stubs":["alloc::fmt::format -> empty string (message text only)"],"covers":2,"unwind":16}
-    #[kani::proof]
-    #[kani::unwind(16)]
-    #[kani::stub(alloc::fmt::format, empty_format)]
-    fn c19_str_prefix6_accepted_lengths() {
-        let n: u8 = kani::any();
-        let acc = match n {
-            0 => prefix6_on::<0>(),
-            1 => prefix6_on::<1>(),
-            2 => prefix6_on::<2>(),
-            _ => prefix6_on::<3>(),
-        };
-        kani::cover!(n == 2 && acc == Some(64), "fd00::/64 accepted");
-        kani::cover!(n == 1 && acc.is_none(), "refused");
-    }
-
-    // -> (accepted, is v6)
-    fn prefix_then_serve<const N: usize>(head: &str) -> (bool, bool) {
-        let (s, _b) = with_tail::<N>(head);
-        let r = str_prefix(Some(s));
-        assert!(matches!(r, Ok(Some(_)) | Err(Error::InvalidConfig(_))), "str_prefix: a prefix or InvalidConfig");
-        let mut out = (false, false);
-        if let Ok(Some(p)) = &r {
-            out = (true, matches!(p, Prefix::V6(_)));
-            // what acl::check_subnet does with every `match-subnets` entry for every client address
-            let c4: u32 = kani::any();
-            let c6: u128 = kani::any();
-            let _ = p.contains(IpAddr::V4(Ipv4Addr::from(c4)));
-            let _ = p.contains(IpAddr::V6(Ipv6Addr::from(c6)));
-            let _ = p.network();
-            let _ = p.broadcast();
-        }
-        std::mem::forget(r);
-        out
-    }
-
-    /// VERIF: {"p":"C19","tier":"quick","fns":["config::str_prefix","config::str_ip","config::Prefix::contains(IpAddr)","config::Prefix6::contains(Ipv4Addr)","config::Prefix4::new","config::Prefix::network","config::Prefix::broadcast"],"bounds":"`match-subnets` strings \"192.0.2.0/\" and \"::ffff:0:1/\" (a v4-mapped prefix) + every ASCII string of length 1,2,3; then the accepted prefix is asked about every IPv4 and IPv6 client address","oracle":"loading gives Ok or Err(InvalidConfig); using an ACCEPTED prefix to match a client (acl::check_subnet) never panics","stubs":["alloc::fmt::format -> empty string (message text only)"],"covers":2,"unwind":20}
-    #[kani::proof]
-    #[kani::unwind(20)]
-    #[kani::stub(alloc::fmt::format, empty_format)]
-    fn c19_str_prefix_accepted_is_safe_to_match() {
-        let (acc, v6) = match kani::any::<u8>() {
-            0 => prefix_then_serve::<1>("192.0.2.0/"),
-            1 => prefix_then_serve::<2>("192.0.2.0/"),
-            2 => prefix_then_serve::<3>("192.0.2.0/"),
-            3 => prefix_then_serve::<1>("::ffff:0:1/"),
-            4 => prefix_then_serve::<2>("::ffff:0:1/"),
-            _ => prefix_then_serve::<3>("::ffff:0:1/"),
-        };
-        kani::cover!(acc && v6, "v6 prefix accepted");
-        kani::cover!(acc && !v6, "v4 prefix accepted");
-    }
-
-    /// VERIF: {"p":"C19","tier":"quick","fns":["config::Prefix6::contains(Ipv4Addr)","config::Prefix6::network","config::Prefix4::new"],"bounds":"Prefix6 built field-wise (exactly what str_prefix/str_prefix6 do) with all 2^128 addresses x every u8 prefix length 0..=255 x all 2^32 IPv4 clients","oracle":"no panic / underflow (`prefixlen - 96`, Prefix4::new's assert)","covers":2}
+    /// VERIF: {"p":"C19","tier":"quick","fns":["config::Prefix6::contains(Ipv4Addr)","config::Prefix6::network","config::Prefix4::new"],"bounds":"Prefix6 built field-wise (exactly what str_prefix/str_prefix6 do: `prefixlen` is the unvalidated result of str::parse::<u8>(), natively confirmed: `match-subnets: [\"::ffff:0:1/200\"]` loads) with all 2^128 addresses x every u8 prefix length 0..=255 x all 2^32 IPv4 clients","oracle":"no panic / underflow (`prefixlen - 96`, Prefix4::new's assert)","covers":2}
     #[kani::proof]
     fn c19_prefix6_contains_v4_total_any_len() {
         let a: u128 = kani::any();
